@@ -3,7 +3,7 @@
 p=$1; tier=$2; shift 2
 cd /repo || exit 2
 if ! git diff --quiet; then echo "/repo has uncommitted changes"; exit 2; fi
-git apply "$p/patch.diff" || { echo "patch does not apply to current /repo"; exit 2; }
+git apply "$p/patch.rebased.diff" 2>/dev/null || git apply "$p/patch.diff" || { echo "patch does not apply to current /repo"; exit 2; }
 trap 'git -C /repo checkout -- . ' EXIT
 cd /verif
 for c in "$@"; do
